@@ -220,6 +220,9 @@ type funcInfo struct {
 	outEpoch, inEpoch map[*ssa.BasicBlock]map[string]string
 	// callEpoch: the epochs of the tracked fields right before each call instruction
 	callEpoch map[ssa.Instruction]map[string]string
+	// stateAt: the epochs of the class-invariant fields at loads of such fields, calls and returns
+	stateAt map[ssa.Instruction]map[string]string
+	cleanEp map[string]bool
 }
 
 func slotOf(v ssa.Value) (base ssa.Value, fname string, ok bool) {
@@ -423,8 +426,13 @@ func analyzeEpochs(fi *funcInfo) {
 						if _, f, ok := slotOf(v.X); ok && fi.fields[f] {
 							m := map[string]string{f: cur[f]}
 							fi.epoch[ins] = m
+							if classInvField[f] {
+								fi.snapshot(ins, cur)
+							}
 						}
 					}
+				case *ssa.Return:
+					fi.snapshot(ins, cur)
 				case *ssa.Store:
 					if _, f, ok := slotOf(v.Addr); ok && fi.fields[f] {
 						cur[f] = fmt.Sprintf("st@%d.%d", b.Index, i)
@@ -439,6 +447,7 @@ func analyzeEpochs(fi *funcInfo) {
 						snap[k] = e
 					}
 					fi.callEpoch[ins] = snap
+					fi.snapshot(ins, cur)
 					for f := range fi.fields {
 						if strings.HasPrefix(f, "cell:") {
 							if cellCallMayModify(v, fi.cells[f]) {
@@ -965,6 +974,7 @@ func (fi *funcInfo) rangeFactsSeen(seen map[string]bool, ls ...Lin) []Lin {
 			seen[a] = true
 			if strings.HasPrefix(a, "len") {
 				out = append(out, slotFacts(a)...)
+				out = append(out, classInvFacts(a)...)
 				if splitLens[a] {
 					out = append(out, atom(a).addK(-1))
 				}
@@ -973,6 +983,7 @@ func (fi *funcInfo) rangeFactsSeen(seen map[string]bool, ls ...Lin) []Lin {
 				continue
 			}
 			out = append(out, assumedFacts(a)...)
+			out = append(out, classInvFacts(a)...)
 			if t, ok := valAtomType[a]; ok {
 				if lo, hi := typeRange(t); lo != nil {
 					out = append(out, atom(a).sub(konstBig(lo)), konstBig(hi).sub(atom(a)))
